@@ -175,9 +175,32 @@ def retry_model(h: Harness):
             h.agree("create_node retry loop", ["retry", [[0, [1, 2, 3]]], 0, [1], [c0, c1]], [chosen, alts_after])
 
 
+def corpus():
+    """fixed witnesses: a failing production that is the ONLY alternative of a nested abstract symbol / one of two /
+    sits below a list, with the failure certain (list always empty) or possible"""
+    C = gram.ClassSpec
+    out = []
+    for hi in (0, 1):
+        failing = [("vars", ("ann", ("list", ("ann", "str", ("varRange", ["x", "y"]))), ("listSize", 0, hi))), ("x", ("ann", "str", ("depVarFrom", "vars")))]
+        # Sel is abstract with the single production Pick
+        out.append(gram.Spec([C("A0", True, None), C("Leaf", False, 0, []), C("Sel", True, None), C("Pick", False, 2, failing),
+                              C("Node", False, 0, [("s", ("cls", 2)), ("k", ("ann", "int", ("intRange", 0, 3)))])], 0, [1, 3, 4, 2]))
+        # the same with Sel nested under the start symbol and a second alternative
+        out.append(gram.Spec([C("A0", True, None), C("Leaf", False, 0, []), C("Sel", True, 0), C("Pick", False, 2, failing),
+                              C("Other", False, 2, [("b", "bool")]), C("Node", False, 0, [("s", ("cls", 2))])], 0, [3, 1, 4, 5, 2]))
+        # below a list
+        out.append(gram.Spec([C("A0", True, None), C("Leaf", False, 0, []), C("Sel", True, None), C("Pick", False, 2, failing),
+                              C("Many", False, 0, [("xs", ("ann", ("list", ("cls", 2)), ("listSize", 1, 2)))])], 0, [4, 1, 3, 2]))
+    return out
+
+
 def run(h: Harness):
     rng = h.rng
     retry_model(h)
+    for spec in corpus():
+        for _ in range(2):
+            history(h, spec, rng)
+        h.count("corpus-histories", 2)
     for _ in range(h.n(60, 900)):
         spec = backtracking_spec(rng) if rng.random() < 0.6 else gram.productive_spec(rng, max_classes=rng.choice([3, 4, 6]))
         history(h, spec, rng)
